@@ -217,10 +217,15 @@ class RSync:
             and not self._sourcedir.startswith("\\\\?\\")
         ):
             sourcedir = "\\\\?\\" + self._sourcedir
-        try:
-            relpath = os.path.relpath(linkpoint, sourcedir)
-        except ValueError:
-            relpath = None
+        relpath = None
+        if os.path.isabs(linkpoint):
+            # only absolute links can point into the source tree as such;
+            # relpath() would resolve a relative link text against the
+            # caller's working directory, which has nothing to do with it
+            try:
+                relpath = os.path.relpath(linkpoint, sourcedir)
+            except ValueError:
+                relpath = None
         if (
             relpath is not None
             and relpath not in (os.curdir, os.pardir)
